@@ -1317,3 +1317,106 @@ Definition from_str_model (fuel : nat) (o : entry_opts) (t : ty) (items : list r
       end
     end
   end.
+
+(* ---------- multi-document entry points (C11) ---------- *)
+Inductive moutcome := MOk (vs : list val) | MErr (e : err) | MFuel.
+
+(* fn from_multiple_with_options: null-like root documents are skipped, the first error wins *)
+Fixpoint from_multiple_loop (fuel : nat) (o : entry_opts) (t : ty) (s : live) (rest : list raw_item)
+                            (acc : list val) : moutcome :=
+  match fuel with
+  | O => MFuel
+  | S f =>
+    match live_peek s rest with
+    | Fail e _ _ => MErr e
+    | Eos s' _ =>
+      match live_finish s' with
+      | (_, Some e) => MErr e
+      | (_, None) => MOk (rev acc)
+      end
+    | Yield e s' rest' =>
+      if ev_scalar_nullish e then
+        match live_next s' rest' with
+        | Fail e' _ _ => MErr e'
+        | Yield _ s2 r2 | Eos s2 r2 => from_multiple_loop f o t s2 r2 acc
+        end
+      else
+        match deser f (eo_cfg o) false t (SLive s' rest') with
+        | DFuel => MFuel
+        | DErr e' => MErr e'
+        | DOk v (SLive s2 r2) => from_multiple_loop f o t s2 r2 (v :: acc)
+        | DOk _ _ => MErr (Err E_Message loc_unknown)
+        end
+    end
+  end.
+
+Definition from_multiple_model (fuel : nat) (o : entry_opts) (t : ty) (items : list raw_item) : moutcome :=
+  from_multiple_loop fuel o t (live_new (eo_budget o) false (eo_limits o) false) items [].
+
+(* ReadIter::next, collected: one entry per item the iterator yields.
+   After a failed document the skip to the next DocumentStart is started from the position at which
+   that document's first event was peeked: a failing deserialization never reads past its own
+   document, so skipping from there reaches the same DocumentStart (validated by correspondence). *)
+Inductive item := IOk (v : val) | IErr (e : err).
+
+(* where the raw stream stands when a document has failed: if the failure is the (non-sticky)
+   parser error item itself, just after that item; otherwise anywhere inside the document -- the
+   position its first event was peeked at is used (see read_iter) *)
+Definition err_eqb_simple (a b : err) : bool :=
+  match a, b with
+  | Err c l, Err c' l' => eclass_beq c c' && loc_eqb l l'
+  | _, _ => false
+  end.
+Fixpoint after_matching_scan_err (e : err) (rest : list raw_item) : option (list raw_item) :=
+  match rest with
+  | [] => None
+  | RScanErr m ua :: r =>
+    if err_eqb_simple e (Err (if ua then E_UnknownAnchor else E_ExternalMessage) (location_from_scan_mark m))
+    then Some r else None
+  | RItem (RDocStart _) _ :: _ => None
+  | RItem _ _ :: r => after_matching_scan_err e r
+  end.
+Definition resume_point (e : err) (rest : list raw_item) : list raw_item :=
+  match after_matching_scan_err e rest with Some r => r | None => rest end.
+
+Fixpoint read_iter (fuel : nat) (o : entry_opts) (t : ty) (s : live) (rest : list raw_item) : list item + unit :=
+  match fuel with
+  | O => inr tt
+  | S f =>
+    match live_peek s rest with
+    | Fail e _ _ => inl [IErr e]                          (* finished; finish() result ignored *)
+    | Eos s' _ =>
+      match live_finish s' with
+      | (_, Some e) => inl [IErr e]
+      | (_, None) => inl []
+      end
+    | Yield e s' rest' =>
+      if ev_scalar_nullish e then
+        match live_next s' rest' with
+        | Yield _ s2 r2 | Eos s2 r2 => read_iter f o t s2 r2
+        | Fail _ s2 r2 => read_iter f o t s2 r2            (* `let _ = self.src.next()` *)
+        end
+      else
+        match deser f (eo_cfg o) false t (SLive s' rest') with
+        | DFuel => inr tt
+        | DOk v (SLive s2 r2) =>
+          match read_iter f o t s2 r2 with
+          | inl l => inl (IOk v :: l)
+          | inr tt => inr tt
+          end
+        | DOk _ _ => inr tt
+        | DErr e' =>
+          match skip_to_next_document s' (resume_point e' rest') with
+          | (true, s2, r2) =>
+            match read_iter f o t s2 r2 with
+            | inl l => inl (IErr e' :: l)
+            | inr tt => inr tt
+            end
+          | (false, _, _) => inl [IErr e']
+          end
+        end
+    end
+  end.
+
+Definition read_model (fuel : nat) (o : entry_opts) (t : ty) (items : list raw_item) : list item + unit :=
+  read_iter fuel o t (live_new (eo_budget o) true (eo_limits o) false) items.
